@@ -364,7 +364,7 @@ def generate(rng, tier):
         cs.append(Case(f"nested3d {method} 0 {hx(x1)} {hx(x2)} {hx(y1)} {hx(y2)} {hx(z1)} {hx(z1)} {product_text([fx, fy, fz], 'xyz')} # nd {fx.ann()} {fy.ann()} {fz.ann()}", ("nested3d", "equal-limits")))
 
     # ---- 3-D
-    for _ in range(rep):
+    for rp in range(rep):
         for method in METHODS:
             for o in range(8):
                 ox, oy, oz = bool(o & 1), bool(o & 2), bool(o & 4)
@@ -375,7 +375,7 @@ def generate(rng, tier):
                     fs = [Fac("mono", 1.0, 1), Fac("mono", 1.0, 2), Fac("mono", 1.0, 3)]            # x y^2 z^3
                 else:
                     fs = [rand_fac(rng, x1, x2), rand_fac(rng, y1, y2), rand_fac(rng, z1, z2)]
-                if method == "Tanh-Sinh" and o not in (0, 3, 5, 6) and not big: continue        # 1e5 evaluations each
+                if method == "Tanh-Sinh" and ((o not in (0, 3, 5, 6) and not big) or rp >= 1): continue        # 1e5 evaluations each, and as many for the direct nesting (thorough tier: one of the four rounds)
                 p = P(method, rng.random() < 0.5)
                 if method == "Gauss-Legendre_2" and p > 31: p = 24
                 cs.append(Case(f"nested3d {method} {p} {hx(x1)} {hx(x2)} {hx(y1)} {hx(y2)} {hx(z1)} {hx(z2)} {product_text(fs, 'xyz')} # nd " + " ".join(f.ann() for f in fs),
@@ -383,7 +383,7 @@ def generate(rng, tier):
 
     # ---- spherical overload
     trap_o = rng.choice([0, 5])
-    for _ in range(rep):
+    for rp in range(rep):
         for method in METHODS:
             for o in range(8):
                 orr, oc, of = bool(o & 1), bool(o & 2), bool(o & 4)
@@ -392,6 +392,7 @@ def generate(rng, tier):
                 if not orr: r1, r2 = r2, r1
                 full = o in (0, 7) or rng.random() < 0.2
                 if method in ("Tanh-Sinh", "Trapezoidal", "Gauss-Kronrod") and o not in (0, 2, 5, 7) and not big: continue
+                if (method == "Tanh-Sinh" and rp >= 2) or (method == "Trapezoidal" and rp >= 1): continue      # (thorough tier: two / one of the four rounds; the direct nesting doubles their cost)
                 if method == "Trapezoidal" and o != trap_o and not big: continue            # about 1.5 s each (0.6e6 evaluations, and as many for the direct nesting)
                 p = P(method, rng.random() < 0.5)
                 if method == "Gauss-Legendre_2" and p > 31: p = 24
@@ -438,7 +439,7 @@ def gen_trapezoid_levels(rng, big):
     cs = []
     for dd in (2, 3):
         for k in (range(dd) if big or dd == 2 else sorted(rng.sample(range(3), 2))):      # (three dimensions: 1.2e6 evaluations per case with the direct nesting)
-            for o in ((range(4) if dd == 2 else sorted(rng.sample(range(8), 4))) if big else [rng.randrange(2 ** dd)]):
+            for o in ((range(4) if dd == 2 else sorted(rng.sample(range(8), 2))) if big else [rng.randrange(2 ** dd)]):
                 lims = [limits(rng, j, bool(o >> j & 1)) for j in range(dd)]
                 facs = [rand_fac(rng, *lims[j]) if j == k else rand_fac(rng, *lims[j], affine=True) for j in range(dd)]
                 if not facs[k].curved(): facs[k] = Fac("expdec", rng.uniform(0.8, 1.5))
@@ -514,7 +515,8 @@ def gen_scales(rng, big, P):
             if dd == 3 and method in ("Gauss-Kronrod", "Tanh-Sinh") and not big: continue
             names = list(scale_patterns(rng, dd))
             if not big: names = ["all-tiny"] + rng.sample(names[1:], 1 if dd == 2 else 0)
-            for name in names * (2 if big else 1):
+            elif dd == 3 and method in ("Gauss-Kronrod", "Tanh-Sinh"): names = ["all-tiny"] + rng.sample(names[1:], 1)      # 1e5 .. 1e6 evaluations each
+            for name in names * (2 if big and not (dd == 3 and method in ("Gauss-Kronrod", "Tanh-Sinh")) else 1):
                 es = scale_patterns(rng, dd)[name]
                 ks = pick_amplitudes(rng, es)
                 if ks is None: continue
@@ -536,7 +538,7 @@ def gen_scales(rng, big, P):
 #      units are initialised; every method name, default and explicit method_parameter, every entry point, an unknown name, equal limits
 def gen_preinit(rng, big, P):
     cs = []
-    for rep in range(3 if big else 1):
+    for rep in range(2 if big else 1):
         for method in METHODS:
             for explicit in (False, True):
                 p = P(method, explicit)
